@@ -1114,6 +1114,7 @@ func report(cs *fw.Case, routine, opts string, t elemT, class string, A *la.Mat,
 		return false
 	}
 	cs.Cover("judged:" + routine)
+	cs.Cover("judged-class:" + routine + "/" + class)
 	if v.Kind == "" {
 		return true
 	}
